@@ -28,7 +28,6 @@ var edReviewed = map[string]string{
 	"ED-2|eval/method_evaluator.(*instanceMethodStrategy).evaluate|error result of errorResolve": "recovery scan after a primary diagnostic: the primary error is returned two statements later",
 	"ED-2|eval/method_evaluator.(*topLevelMethodStrategy).evaluate|error result of errorResolve": "recovery scan after a primary diagnostic: the primary error is returned two statements later",
 	"ED-2|eval/method_evaluator.(*unionInstanceStrategy).evaluate|error result of errorResolve":  "recovery scan after a primary diagnostic: the primary error is returned two statements later",
-	"ED-2|eval/method_evaluator.handleRefference|error result of Eval":                          "same pattern as the neighbouring finding (Eval#2) but no input was found on which a diagnostic is lost here: the reference evaluators skip the index tokens, and errors of the operator that may follow are reported by other paths — read, not decided; to be repaired together with Eval#2",
 	"ED-2|eval.(*Def).getChainMethodReturnType|error result of Eval":                              "speculative re-evaluation of the method's last identifier to resolve its return type; its diagnostics duplicate those reported when the body itself was analysed",
 	"ED-2|eval.(*Bind).handleScalarAsigntment|error result of Eval":                               "dead arm: EvalExpr consumes every `[` that follows the right-hand side (explicit `continue` on `[`), so the token read here is never `[`",
 	"ED-2|eval.(*Bind).handleMultipleToScalarAsigntment|error result of handleMultipleToMultipleAsigntment": "the only diagnostic this callee produces is `… is read only` for a multiple assignment whose right side is a union; it is lost (observed: `self.a, b = x` with x a union reports nothing) but lies outside C07's statement (misuse of configured builtin methods) — recorded in DESIGN.md as a defect outside the listed properties",
@@ -324,6 +323,11 @@ func engineED(w *World, tier string) *EngineResult {
 	r.Stats["calls_that_may_return_a_diagnostic"] = nDiagSites
 	r.Stats["diagnostic_source_functions"] = len(diag)
 	r.floor("calls_that_may_return_a_diagnostic", 150)
+	for k := range edReviewed {
+		if _, used := r.Reviewed[k]; !used {
+			r.Notes = append(r.Notes, "reviewed entry without a matching site (stale): "+k)
+		}
+	}
 	r.finish()
 	return r
 }
